@@ -10,7 +10,7 @@ from __future__ import annotations
 
 from hypothesis import strategies as st
 
-from vf import core, pipedrive, rvdrive, rvtext
+from vf import core, pipedrive, rvdrive, rvtext, snap
 from vf.core import Violation
 from vf.gen import cachecfg, rvprog
 from vf.ref.cache import RefCache
@@ -81,7 +81,18 @@ def check(case, stats):
 
         im.read_instruction = rec
 
-    on = pipedrive.run(case, mode, True, dc, ic, max_steps=cap, sim_hook=hook)
+    def look(sim):
+        # read-only queries between steps (C16) are not fetches: the fetch counters and the cycle counter stay put
+        im = sim.state.instruction_memory
+        s0, c0 = dict(im.get_cache_stats()), sim.state.performance_metrics.cycles
+        n0 = len(log)
+        for name in snap.RV_INSPECT:
+            snap.rv_call(sim, name)
+        if dict(im.get_cache_stats()) != s0 or sim.state.performance_metrics.cycles != c0 or len(log) != n0:
+            raise Violation("inspection-counted-as-fetch", case, f"inspection between steps: I-cache stats {s0} -> {dict(im.get_cache_stats())}, "
+                            f"cycles {c0} -> {sim.state.performance_metrics.cycles}, {len(log) - n0} fetches through the cached instruction memory")
+
+    on = pipedrive.run(case, mode, True, dc, ic, max_steps=cap, sim_hook=hook, pre_step=look if case.get("inspect") else None)
     # transparency of results
     if off.end != on.end or off.pcs != on.pcs:
         raise Violation("program-path", case, f"without I-cache: {off.end} after {len(off.pcs)} instructions; with: {on.end} after {len(on.pcs)}")
@@ -177,7 +188,7 @@ def prog_case():
     plain = st.builds(lambda c, i, m: dict(c, kind="prog", icache=i, dcache=None, mode=m, max=200), progs, icfg(), st.sampled_from(["single", "five"]))
     withd = st.builds(lambda c, i, d, m: dict(c, kind="prog", icache=i, dcache=d, mode=m, max=200), rvprog.mem_heavy_case(14), icfg(),
                       cachecfg.small_cache_config(), st.sampled_from(["single", "five"]))
-    return st.one_of(plain, plain, plain, withd)
+    return st.builds(lambda c, look: dict(c, inspect=True) if look else c, st.one_of(plain, plain, plain, withd), st.sampled_from([False, False, True]))
 
 
 @st.composite
